@@ -24,7 +24,39 @@ def _scale_plan(plan):
     return [(f, max(1, int(n * sc)), c) for (f, n, c) in plan]
 
 
+def optimize_pass(prop, tier):
+    """A second, smaller pass of the same check in an interpreter started with -O (assert
+    statements stripped, __debug__ False): how Python is started is a dimension too.  Returns
+    (rc, info, violation_lines)."""
+    if os.environ.get("VERIF_OPT_PASS") or os.environ.get("VERIF_NO_OPT_PASS") or sys.flags.optimize:
+        return 0, None, []
+    e = dict(os.environ, PYTHONOPTIMIZE="1", VERIF_OPT_PASS="1", VERIF_SCALE=os.environ.get("VERIF_OPT_SCALE", "0.12"),
+             VERIF_BUDGET=os.environ.get("VERIF_OPT_BUDGET", "60" if tier == "quick" else "600"))
+    p = subprocess.run([sys.executable, os.path.join(env.VERIF_DIR, "bin", "check"), prop, tier], capture_output=True, text=True, env=e, timeout=7000)
+    lines = [l for l in p.stdout.splitlines() if l.startswith("VIOLATION ")]
+    runs = [l for l in p.stdout.splitlines() if l.startswith("[dst] ") and " runs, " in l]
+    info = {"interpreter": "python -O (PYTHONOPTIMIZE=1)", "exit": p.returncode, "summary": runs[-1][6:] if runs else None}
+    if p.returncode not in (0, 1):
+        sys.stderr.write(p.stdout[-1500:] + p.stderr[-1500:])
+    else:
+        for l in p.stdout.splitlines():
+            if l.startswith("[dst] violation") or l.startswith("KNOWN-FINDING"):
+                print("[-O pass] " + l)
+    return p.returncode, info, lines
+
+
 def cmd_check(prop, tier):
+    rc0, info, lines = optimize_pass(prop, tier)
+    if rc0 == 2:
+        print(f"HARNESS-ERROR property={prop}: the python -O pass failed")
+        return 2
+    rc = _cmd_check(prop, tier, info)
+    for l in lines:
+        print(l)
+    return max(rc, 1 if lines else 0)
+
+
+def _cmd_check(prop, tier, opt_info=None):
     from . import core, registry
 
     t0 = time.monotonic()
@@ -33,6 +65,7 @@ def cmd_check(prop, tier):
     os.environ["VERIF_TIER"] = tier
     print(f"[dst] property={prop} tier={tier} VERIF_SEED={seed} repo={env.repo_root()} workers={core.nworkers()}", flush=True)
     mod = registry.load(prop)
+    mod.META["python_optimize_pass"] = opt_info
     known = core.load_known_findings()
     if hasattr(mod, "run_check"):
         # engines with their own batch structure (crashsim)
@@ -116,7 +149,8 @@ def finish(prop, tier, seed, mod, results, herrs, wall, known, extra_lines=()):
         # fault missed ...): never exit 0 on it
         print(f"HARNESS-ERROR property={prop}: {n} runs but only {nt} distinct non-trivial one(s): nothing was really explored")
         return 2
-    core.write_evidence(prop, tier, seed, mod.LEVEL, results, wall, mod.META, len(viols), dict(known_hits))
+    if not os.environ.get("VERIF_OPT_PASS"):
+        core.write_evidence(prop, tier, seed, mod.LEVEL, results, wall, mod.META, len(viols), dict(known_hits))
     print(f"[dst] {n} runs, {nt} distinct non-trivial, {wall:.1f}s, violations={len(viols)}")
     for l in list(extra_lines) + lines:
         print(l)
@@ -240,7 +274,10 @@ def main(argv):
         print(__doc__)
         return 2
     if argv[0] == "--replay":
-        ensure_hashseed(json.load(open(argv[1]))["verif_seed"], argv)
+        _doc = json.load(open(argv[1]))
+        if _doc.get("python_optimize") and not sys.flags.optimize:
+            os.execve(sys.executable, [sys.executable, os.path.join(env.VERIF_DIR, "bin", "check")] + list(argv), dict(os.environ, PYTHONOPTIMIZE="1", VERIF_OPT_PASS="1"))
+        ensure_hashseed(_doc["verif_seed"], argv)
         return cmd_replay(argv[1], quiet="--quiet" in argv)
     if argv[0] == "digests":
         return cmd_digests(argv[1], int(argv[2]), int(argv[3]), argv[4] if len(argv) > 4 else "quick")
